@@ -15,10 +15,30 @@ def run(ctx):
         sync_misc.portfolio_sync(c, corr, tr, ix)
         for op in tr.rec.pf_ops:
             c.nontrivial(op["op"], op["args"].get("account"), op["args"].get("days"), op["raised"])
-    tstream.stream(ctx, ctx.n(50, 2500), None, [monitors.c03_monitor], extra_sync=extra,
-                   # every other run: dense corporate actions (a split and a cash dividend sharing the ex-date) on holdings that exist from the first day
-                   market_opts=lambda k: ({"opts": {"p_div": 0.8, "p_split": 0.6, "p_same_ex": 0.7}} if k % 2 else {}),
-                   cfg_opts=lambda k: {"p_init_pos": 0.5 if k % 2 else 0.2})
+    import random, bundle as B, trading
+
+    def gen(rnd, k):
+        # every other run: dense corporate actions (a split and a cash dividend sharing the ex-date) on holdings that exist from the first day;
+        # every fifth run: a share conversion at a delisting (the predecessor is bought a few days before by the stream's directed plan)
+        if k % 5 == 4:
+            S = B.gen_market(rnd, ndays=rnd.randrange(12, 26), n_stocks=3, opts={"p_div": 0.5, "p_split": 0.3, "p_delist": 0.6})
+            dl = [s for s in S["stocks"] if s["delisted"] is not None]
+            others = [s for s in S["stocks"] if s["delisted"] is None]
+            if dl and others:
+                # the data of a real conversion are consistent: on the predecessor's last day its close is the successor's close x ratio (the code marks the
+                # successor's WHOLE position at predecessor's last price / ratio at the conversion; with unrelated prices that is a jump of the generator's making)
+                pred, succ, ratio = dl[0], others[0], rnd.choice([1.0, 2.0])
+                di = S["cal"].index(pred["delisted"]) - 1
+                sb = succ["bars"].get(di)
+                if sb is not None and di in pred["bars"]:
+                    c = round(sb[2] * ratio, 2)
+                    b0 = pred["bars"][di]
+                    pred["bars"][di] = (b0[0], c, c, c, c, b0[5], c * b0[5], round(c * 1.1, 2), round(c * 0.9, 2))
+                    S["trf"][pred["id"]] = {"successor": succ["id"], "share_conversion_ratio": ratio}
+        else:
+            S = B.gen_market(rnd, ndays=rnd.randrange(10, 26), **({"opts": {"p_div": 0.8, "p_split": 0.6, "p_same_ex": 0.7}} if k % 2 else {}))
+        return S, trading.gen_config(rnd, S, {"p_init_pos": 0.5 if k % 2 else 0.2})
+    tstream.stream(ctx, ctx.n(50, 2500), None, [monitors.c03_monitor], extra_sync=extra, gen=gen)
 
 
 def replay(ctx, data):
